@@ -1,0 +1,71 @@
+//go:build verif
+
+// Contracts for package segment, checked by /verif/engine (govc).
+// This file contains comments only; it never changes the compiled package.
+
+package segment
+
+/*@
+
+// ---------------------------------------------------------------- vocabulary
+
+pred relative(o int64) := o == message.OffsetOldest || o == message.OffsetNewest
+
+func (Segment).GetOffset
+    def s.Offset
+
+// ---------------------------------------------------------------- ghost directory
+ghost var fsContent map[string]int     // abstract content id of the log file at a path
+
+// reads the index file, or rebuilds it from the log when missing/header-only.
+// ASSUMED (I/O): the result is the index derived from the log file on disk.
+func (Segment).ReindexAndReadIndex
+    flags assumed
+    ensures err == nil ==> derived(ret0, fsContent[s.Log], params) && fresh(region(ret0)) || err == nil && len(ret0) == 0 && recN(fsContent[s.Log]) == 0
+    ensures err != nil ==> ioerr(err)
+
+// ---------------------------------------------------------------- segment selection (C03, C04)
+// Proved once on the generic body: the element type is an uninterpreted sort
+// and GetOffset an uninterpreted function, so the proof holds for every instantiation.
+
+func Consume
+    flags overflow
+    requires len(segments) >= 1 && len(segments) <= 1152921504606846976
+    requires forall i, j :: 0 <= i && i < j && j < len(segments) ==> segments[i].GetOffset() < segments[j].GetOffset()
+    ensures[range]  0 <= ret1 && ret1 < len(segments) && ret0 == segments[ret1]
+    ensures[oldest] offset == message.OffsetOldest ==> ret1 == 0
+    ensures[newest] offset == message.OffsetNewest ==> ret1 == len(segments)-1
+    ensures[first]  !relative(offset) && offset <= segments[0].GetOffset() ==> ret1 == 0
+    // otherwise: the last segment whose base offset is not above the request
+    ensures[floor]  !relative(offset) && offset > segments[0].GetOffset() ==>
+                        segments[ret1].GetOffset() <= offset
+                        && (ret1 == len(segments)-1 || offset < segments[ret1+1].GetOffset())
+    loop 1
+      invariant[bounds] 0 <= beginIndex && endIndex <= len(segments)-1 && beginIndex <= endIndex+1
+      invariant[below]  forall i :: 0 <= i && i < beginIndex ==> segments[i].GetOffset() < offset
+      invariant[above]  forall i :: endIndex < i && i < len(segments) ==> segments[i].GetOffset() > offset
+      invariant[ends]   segments[0].GetOffset() < offset && offset < segments[len(segments)-1].GetOffset()
+      decreases endIndex - beginIndex + 1
+
+func Get
+    flags overflow
+    requires len(segments) >= 1 && len(segments) <= 1152921504606846976
+    requires forall i, j :: 0 <= i && i < j && j < len(segments) ==> segments[i].GetOffset() < segments[j].GetOffset()
+    ensures[range]    err == nil ==> 0 <= ret1 && ret1 < len(segments) && ret0 == segments[ret1]
+    ensures[oldest]   offset == message.OffsetOldest ==> err == nil && ret1 == 0
+    ensures[newest]   offset == message.OffsetNewest ==> err == nil && ret1 == len(segments)-1
+    ensures[before]   !relative(offset) && offset < segments[0].GetOffset() ==>
+                          ret1 == -1 && (segments[0].GetOffset() == 0 ==> err == ErrOffsetRelative)
+                                     && (segments[0].GetOffset() != 0 ==> err == ErrOffsetBeforeStart)
+    ensures[floor]    !relative(offset) && offset >= segments[0].GetOffset() ==>
+                          err == nil && segments[ret1].GetOffset() <= offset
+                          && (ret1 == len(segments)-1 || offset < segments[ret1+1].GetOffset())
+    ensures[errs]     err == nil || err == ErrOffsetRelative || err == ErrOffsetBeforeStart
+    loop 1
+      invariant[bounds] 0 <= beginIndex && endIndex <= len(segments)-1 && beginIndex <= endIndex+1
+      invariant[below]  forall i :: 0 <= i && i < beginIndex ==> segments[i].GetOffset() < offset
+      invariant[above]  forall i :: endIndex < i && i < len(segments) ==> segments[i].GetOffset() > offset
+      invariant[ends]   segments[0].GetOffset() < offset && offset < segments[len(segments)-1].GetOffset()
+      decreases endIndex - beginIndex + 1
+
+@*/
